@@ -26,3 +26,11 @@ TEXTS = {
         note=MATCH_NOTE + " Partial: aliasing and data-race freedom are properties of the Go runtime state that a Gallina function "
              "cannot exhibit; they are checked by the harness probes, not proved."),
 }
+
+# groups built separately: checklib/texts_<group>.py defines TEXTS / NOT_APPLICABLE / HOOK_COMMITS
+import glob as _glob, importlib as _importlib, os as _os
+for _f in sorted(_glob.glob(_os.path.join(_os.path.dirname(__file__), "texts_*.py"))):
+    _m = _importlib.import_module("checklib." + _os.path.basename(_f)[:-3])
+    TEXTS.update(getattr(_m, "TEXTS", {}))
+    NOT_APPLICABLE.update(getattr(_m, "NOT_APPLICABLE", {}))
+    HOOK_COMMITS.extend(getattr(_m, "HOOK_COMMITS", []))
